@@ -1,8 +1,8 @@
 #!/verif/.venv/bin/python
-# Replay of a counterexample against the real code in /repo/src (exit 1 = violation reproduced).
+# Replay of a counterexample against the real code in /tmp/wt_sv/src (exit 1 = violation reproduced).
 import os, sys
 os.environ.setdefault("NUMBA_DISABLE_JIT", "1")
-sys.path.insert(0, '/repo' + "/src"); sys.path.insert(0, '/verif')
+sys.path.insert(0, '/tmp/wt_sv' + "/src"); sys.path.insert(0, '/verif')
 from fractions import Fraction
 import harness.C21 as H
 try:
